@@ -564,7 +564,7 @@ class Exec:
                         except Exception: break
                     if tgt is not None and not isinstance(tgt, (Opaque, Ref)) and tgt != () and not _IGNORABLE_MUT.match(callee):
                         self.mut_opaque.add(callee)
-                        if os.environ.get('MIRSE_LAX_MUT') != '1': raise Inconclusive('no summary for %s, which gets mutable access to modelled state (in %s)' % (callee, where[-80:]))
+                        if os.environ.get('MIRSE_LAX_MUT') != '1' and not getattr(self, 'lax_mut', False): raise Inconclusive('no summary for %s, which gets mutable access to modelled state (in %s)' % (callee, where[-80:]))
             return cont(Opaque(callee), env, pc)
         raise Inconclusive('no summary and no MIR for call to %s (in %s)' % (callee, where[-80:]))
 
